@@ -69,4 +69,39 @@ theorem keepalive_guard_src : keepalive_guard = keepaliveGuardExpected := by dec
 theorem keepalive_timeout_src :
     keepalive_timeout = "uint16(r.idleTimeout.Milliseconds() / 100)" := by decide
 
+/-- DNSCrypt (repaired code): the SERVFAIL for a silent handler is built first and goes through the
+one `normalize` call like every other response; DoQ does the same with `normalizeTCP`. -/
+theorem dnscrypt_order_src :
+    dnscrypt_write_order = "serveDNSMsg,genErrorResponse,normalize,WriteMsg" := by decide
+theorem quic_silent_src : quic_silent = "serveDNSMsg,genErrorResponse,normalizeTCP" := by decide
+
+/-- `acceptMsg` as modelled by `Agd.Normalize.acceptMsg`. -/
+def acceptCondsExpected : String :=
+  "m.Response | m.Opcode != dns.OpcodeQuery && m.Opcode != dns.OpcodeNotify | len(m.Question) != 1 | len(m.Answer) > 1 | len(m.Ns) > 1"
+set_option maxRecDepth 8192 in
+theorem accept_conds_src : accept_conds = acceptCondsExpected := by decide
+
+/-- `serveDNSMsgInternal`: reject / not-implemented / ignore, handler error => SERVFAIL, with an
+extended-error OPT only for a non-critical network error and only for a query that carries OPT. -/
+theorem internal_cases_src :
+    internal_cases = "dns.MsgReject | dns.MsgRejectNotImplemented | dns.MsgIgnore" := by decide
+def internalCondsExpected : String :=
+  "resp != nil | err != nil | err != nil | isNonCriticalNetError(err) | err != nil"
+theorem internal_conds_src : internal_conds = internalCondsExpected := by decide
+theorem ede_conds_src : ede_conds = "reqOpt == nil | respOpt == nil" := by decide
+theorem generr_src : generr_call = "req, code" := by decide
+
+/-- `miekg/dns` v1.1.62 `Msg.Truncate` / `truncateLoop` / `IsTsig` as modelled (`msgTruncate`,
+`cutOver`, `truncLoop`, `tsigAtTruncate`). -/
+def libTruncateExpected : String :=
+  "dns.IsTsig() != nil | size < MinMsgSize | l <= size | edns0 != nil | l < size | l < size | l < size | edns0 != nil"
+set_option maxRecDepth 8192 in
+theorem lib_truncate_src : lib_truncate_conds = libTruncateExpected := by decide
+theorem lib_truncloop_src : lib_truncloop_conds = "r == nil | l > size | l == size" := by decide
+theorem lib_truncloop_returns_src :
+    lib_truncloop_returns = "size, i | l, i + 1 | l, len(rrs)" := by decide
+def libIsTsigExpected : String :=
+  "len(dns.Extra) > 0 | dns.Extra[len(dns.Extra)-1].Header().Rrtype == TypeTSIG"
+theorem lib_istsig_src : lib_istsig_conds = libIsTsigExpected := by decide
+
 end Agd.Tie.C08
